@@ -939,6 +939,18 @@ fn produce_rec<P: Producer<Item = u32>>(drv: &Driver, p: P, len: usize, depth: u
         let _ = (p.min_len(), p.max_len());
         let mut it = p.into_iter();
         let mut v = Vec::with_capacity(len);
+        if drv.draw(4) == 0 {
+            // walked from the back, as `rev()` placed after the wrapper does
+            for _ in 0..len {
+                match drv.item(|| it.next_back()) {
+                    Some(x) => v.push(x),
+                    None => break,
+                }
+            }
+            v.extend(it.rev());
+            v.reverse();
+            return v;
+        }
         for _ in 0..len {
             match drv.item(|| it.next()) {
                 Some(x) => v.push(x),
